@@ -1535,7 +1535,8 @@ fn worker_main() {
                     let mut vm = koto_runtime::KotoVm::with_settings(settings);
                     match vm.run(chunk) {
                         Ok(v) => format!("value {}", kvh::canon::value(&v)),
-                        Err(e) => format!("error {}", e.to_string().replace(' ', "_").replace('\n', "/").chars().take(120).collect::<String>()),
+                        // the error kind only: rendering the whole error (source excerpts) is C12's business
+                        Err(e) => format!("error {}", e.error.to_string().replace(' ', "_").replace('\n', "/").chars().take(120).collect::<String>()),
                     }
                 }) {
                     Ok(s) => s,
@@ -1631,6 +1632,11 @@ impl Ctx {
                 self.rep.bump(&format!("{}:compile-error", kind));
                 let short: String = e.chars().take(40).collect();
                 self.rep.bump(&format!("compile-error={}", short.replace('\n', " ")));
+                false
+            }
+            Outcome::Panic(_, _) if origin.starts_with("boundary-") => {
+                // judged by the boundary sweep itself (the worker reports `compile-panic`)
+                self.rep.bump(&format!("{}:compile-panic", kind));
                 false
             }
             Outcome::Panic(msg, loc) => {
@@ -1929,6 +1935,113 @@ fn token_mutants(src: &str, rng: &mut Rng, cap: usize) -> Vec<(String, String)> 
     out
 }
 
+/// Boundary sweep of the compiler's narrowing casts (`as u8` / `as i8` / `as u16`, table checked by
+/// translators/cast_table.py): each family drives one cast operand across 127/128, 255/256 (and the
+/// register limit), and states the value the program must produce. Oracle: that value, or a compile
+/// error. (family, n, program, expected worker reply)
+fn boundary_cases() -> Vec<(String, usize, String, String)> {
+    let mut v: Vec<(String, usize, String, String)> = vec![];
+    let names = |p: &str, n: usize| -> String { (0..n).map(|i| format!("{}{}", p, i)).collect::<Vec<_>>().join(", ") };
+    let unders = |n: usize| -> String { vec!["_"; n].join(", ") };
+    let ns: Vec<usize> = vec![2, 126, 127, 128, 129, 130, 200, 254, 255, 256, 257, 300];
+    for &n in &ns {
+        // import item count (compile_import: SequenceStart operand)
+        let items: Vec<String> = (0..n).map(|i| format!("a{}: {}", i, i)).collect();
+        let imp: Vec<String> = (0..n).map(|i| format!("'a{}'", i)).collect();
+        v.push(("import-items".into(), n, format!("m = {{{}}}\nx = from m import {}\nsize x\n", items.join(", "), imp.join(", ")), format!("value i{}", n)));
+        // nested argument tuple: size check operand
+        let wrong = if n > 256 { n - 256 } else { n + 256 };
+        v.push(("nested-arg-size".into(), n, format!(
+            "f = |({})| 'ok'\nt = |k| try\n  f((0..k).to_tuple())\ncatch e\n  'err'\nt({}), t({}), t({})\n", unders(n), n, n - 1, wrong),
+            "value (t sx6f6b sx657272 sx657272)".into()));
+        // nested match pattern: size check operand
+        v.push(("match-size".into(), n, format!(
+            "m = |k| match (0..k).to_tuple()\n  ({}) then 'ok'\n  else 'no'\nm({}), m({}), m({})\n", unders(n), n, n - 1, wrong),
+            "value (t sx6f6b sx6e6f sx6e6f)".into()));
+        // element indices (TempIndex operand, read as i8)
+        v.push(("nested-arg-index".into(), n, format!("f = |({})| (a0, a{}, a{})\nf((0..{}).to_tuple())\n", names("a", n), n - 2, n - 1, n),
+            format!("value (t i0 i{} i{})", n - 2, n - 1)));
+        v.push(("match-index-tuple".into(), n, format!("match (0..{}).to_tuple()\n  ({}) then (a0, a{}, a{})\n", n, names("a", n), n - 2, n - 1),
+            format!("value (t i0 i{} i{})", n - 2, n - 1)));
+        v.push(("match-index-list".into(), n, format!("match (0..{}).to_list()\n  ({}) then (a0, a{}, a{})\n", n, names("a", n), n - 2, n - 1),
+            format!("value (t i0 i{} i{})", n - 2, n - 1)));
+        v.push(("for-args-index".into(), n, format!("r = null\nfor {} in ((0..{}).to_tuple(),)\n  r = (a0, a{}, a{})\nr\n", names("a", n), n, n - 2, n - 1),
+            format!("value (t i0 i{} i{})", n - 2, n - 1)));
+        v.push(("multi-assign-index".into(), n, format!("{} = (0..{}).to_tuple()\na0, a{}, a{}\n", names("a", n), n, n - 2, n - 1),
+            format!("value (t i0 i{} i{})", n - 2, n - 1)));
+        // ellipsis slices (SliceTo / SliceFrom operands, read as i8)
+        v.push(("nested-arg-ellipsis-first".into(), n, format!("f = |(rest..., {})| (size rest, a0, a{})\nf((0..{}).to_tuple())\n", names("a", n), n - 1, n + 3),
+            format!("value (t i3 i3 i{})", n + 2)));
+        v.push(("nested-arg-ellipsis-last".into(), n, format!("f = |({}, rest...)| (a0, a{}, size rest)\nf((0..{}).to_tuple())\n", names("a", n), n - 1, n + 3),
+            format!("value (t i0 i{} i3)", n - 1)));
+        v.push(("match-ellipsis-first".into(), n, format!("match (0..{}).to_tuple()\n  (rest..., {}) then (size rest, a0, a{})\n", n + 3, names("a", n), n - 1),
+            format!("value (t i3 i3 i{})", n + 2)));
+        v.push(("match-ellipsis-last".into(), n, format!("match (0..{}).to_tuple()\n  ({}, rest...) then (a0, a{}, size rest)\n", n + 3, names("a", n), n - 1),
+            format!("value (t i0 i{} i3)", n - 1)));
+        // multi-value match (`match a, b, …`: temp tuple index)
+        v.push(("match-multi-value".into(), n, format!("match {}\n  {} then (a0, a{})\n", (0..n).map(|i| i.to_string()).collect::<Vec<_>>().join(", "), names("a", n), n - 1),
+            format!("value (t i0 i{})", n - 1)));
+        // call argument count, packed arguments after n plain ones, list / map / interpolation sizes
+        let nums: Vec<String> = (0..n).map(|i| i.to_string()).collect();
+        v.push(("call-args".into(), n, format!("f = |xs...| (size xs, xs[{}])\nf({})\n", n - 1, nums.join(", ")), format!("value (t i{} i{})", n, n - 1)));
+        v.push(("call-packed-after".into(), n, format!("f = |xs...| (size xs, xs[{}])\np = (7, 8)\nf({}, p...)\n", n + 1, nums.join(", ")), format!("value (t i{} i8)", n + 2)));
+        v.push(("list-literal".into(), n, format!("x = [{}]\n(size(x), x[{}])\n", nums.join(", "), n - 1), format!("value (t i{} i{})", n, n - 1)));
+        v.push(("tuple-literal".into(), n, format!("x = ({})\n(size(x), x[{}])\n", nums.join(", "), n - 1), format!("value (t i{} i{})", n, n - 1)));
+        let entries: Vec<String> = (0..n).map(|i| format!("k{}: {}", i, i)).collect();
+        v.push(("map-literal".into(), n, format!("x = {{{}}}\n(size(x), x.k{})\n", entries.join(", "), n - 1), format!("value (t i{} i{})", n, n - 1)));
+        let interp: String = (0..n).map(|_| "{a}".to_string()).collect();
+        v.push(("interpolation-nodes".into(), n, format!("a = 7\nsize '{}'\n", interp), format!("value i{}", n)));
+        // optional arguments and captures (Function operands, Capture index)
+        let opts: Vec<String> = (0..n).map(|i| format!("o{} = {}", i, i)).collect();
+        v.push(("optional-args".into(), n, format!("f = |{}| (o0, o{})\nf()\n", opts.join(", "), n - 1), format!("value (t i0 i{})", n - 1)));
+        let caps: String = (0..n).map(|i| format!("c{} = {}\n", i, i)).collect();
+        v.push(("captures".into(), n, format!("{}f = || {}\nf()\n", caps, (0..n).map(|i| format!("c{}", i)).collect::<Vec<_>>().join(" + ")), format!("value i{}", n * (n - 1) / 2)));
+        // assignment statements through a chain target (compile_assign, value in a temporary)
+        let assigns: String = (0..n).map(|i| format!("m.k{} = {}\n", i, i)).collect();
+        v.push(("chain-assign-statements".into(), n, format!("m = {{}}\n{}size m\n", assigns), format!("value i{}", n)));
+        let assigns: String = (0..n).map(|i| format!("  l[0] = {}\n", i)).collect();
+        v.push(("index-assign-statements".into(), n, format!("f = |l|\n{}  l[0]\nf([0])\n", assigns), format!("value i{}", n - 1)));
+        let assigns: String = (0..n).map(|i| format!("y = m.k = {}\n", i)).collect();
+        v.push(("chain-assign-values".into(), n, format!("m = {{}}\ny = 0\n{}y, m.k\n", assigns), format!("value (t i{} i{})", n - 1, n - 1)));
+    }
+    for &n in &[500usize, 1000, 3000] {
+        let assigns: String = (0..n).map(|i| format!("m.k{} = {}\n", i % 50, i)).collect();
+        v.push(("chain-assign-statements".into(), n, format!("m = {{}}\n{}size m\n", assigns), "value i50".into()));
+    }
+    // integer literals around the SetNumberU8 / SetNumberNegU8 / LoadInt boundaries
+    v.push(("int-literals".into(), 0, "(0, 1, 2, 127, 128, 254, 255, 256, 257, -1, -2, -127, -128, -254, -255, -256, -257, 65535, 65536, -65536)\n".into(),
+        "value (t i0 i1 i2 i127 i128 i254 i255 i256 i257 i-1 i-2 i-127 i-128 i-254 i-255 i-256 i-257 i65535 i65536 i-65536)".into()));
+    // a function that captures itself through a still-reserved local while nested in a literal
+    for (k, (prog, exp)) in [
+        ("g = [[|| g], [1, 2]]\nsize g[0][0]()\n", "value i2"),
+        ("g = [|| g]\nsize g[0]()\n", "value i1"),
+        ("g = (|| g, 5)\ng[0]()[1]\n", "value i5"),
+        ("g = {f: || g, l: [1, 2]}\nsize g.f().l\n", "value i2"),
+        ("g = [1, [2, || g], [3]]\nsize g[1][1]()\n", "value i3"),
+        ("g = || g\ntype g()()\n", "value sx46756e6374696f6e"),
+    ].iter().enumerate() {
+        v.push(("deferred-self-capture".into(), k, prog.to_string(), exp.to_string()));
+    }
+    v
+}
+
+/// The open finding (if any) whose documented shape covers a failing boundary case.
+fn boundary_finding(family: &str, n: usize) -> Option<&'static str> {
+    match family {
+        "import-items" if n >= 128 => Some("F-C05-9"),
+        "nested-arg-size" | "match-size" if n >= 256 => Some("F-C05-10"),
+        "nested-arg-ellipsis-first" | "match-ellipsis-first" if n >= 127 => Some("F-C05-11"),
+        "nested-arg-index" | "match-index-tuple" | "match-index-list" | "nested-arg-ellipsis-last" | "match-ellipsis-last" | "match-multi-value"
+            if n >= 128 =>
+        {
+            Some("F-C05-11")
+        }
+        "deferred-self-capture" => Some("F-C05-12"),
+        "chain-assign-statements" | "index-assign-statements" | "chain-assign-values" if n >= 100 => Some("F-C05-13"),
+        _ => None,
+    }
+}
+
 /// Must-pass behavioural cases of repaired findings: (name, program, canonical value of the program).
 fn behaviour_cases() -> Vec<(&'static str, String, String)> {
     let s = |x: &str| format!("value s{}", kvh::hex(x.as_bytes()));
@@ -1985,7 +2098,7 @@ fn real_main() -> i32 {
     install_panic_hook();
     let args = Args::parse();
     let mut rep = Report::new("C05", &args);
-    rep.rule = "cases = programs handed to the real compiler (repository scripts, documentation examples, their single-token delete/duplicate/swap neighbours, seeded generated programs, loop x try-block nestings with break/continue/return, every expression kind in statement position x every block kind, functions ending in a nested jump, register-pressure x construct grid, capture-heavy programs (also compiled in two fresh processes each), size-scaled programs at the u8/u16 limits) plus register-allocator histories; every compiled chunk goes through wfChunk and the decoder correspondence, and is compiled again in this process and in a child process; distinct = distinct source texts / histories; non-trivial = chunk with at least 4 instructions, or a history with at least 3 operations".into();
+    rep.rule = "cases = programs handed to the real compiler (repository scripts, documentation examples, their single-token delete/duplicate/swap neighbours, seeded generated programs, loop x try-block nestings with break/continue/return, every expression kind in statement position x every block kind, functions ending in a nested jump, register-pressure x construct grid, a behavioural boundary sweep of the compiler's narrowing casts, capture-heavy programs (also compiled in two fresh processes each), size-scaled programs at the u8/u16 limits) plus register-allocator histories; every compiled chunk goes through wfChunk and the decoder correspondence, and is compiled again in this process and in a child process; distinct = distinct source texts / histories; non-trivial = chunk with at least 4 instructions, or a history with at least 3 operations".into();
     let open: Vec<String> = rep.known_open().iter().filter_map(|e| e.get("id").and_then(|x| x.as_str()).map(|s| s.to_string())).collect();
     let drv = Driver::spawn(&args.driver);
     let worker = Worker::spawn(&["--worker".to_string()]);
@@ -2198,6 +2311,42 @@ fn real_main() -> i32 {
     }
     cx.flush();
 
+    // 4c. boundary sweep of the narrowing casts: the stated value or a compile error
+    for (family, n, prog, expect) in boundary_cases() {
+        let label = format!("boundary-{}:{}", family, n);
+        cx.submit(&label, &prog, false);
+        let got = match cx.worker.request(&format!("v {}", kvh::hex(prog.as_bytes())), Duration::from_secs(30)) {
+            Reply::Ok(s) => s,
+            Reply::Timeout => "timeout".into(),
+            Reply::Died(x) => format!("died {}", x),
+        };
+        cx.rep.case(&format!("boundary {} {}", family, n), true);
+        // a compile error is an acceptable outcome at a size limit — except where the construct's register use
+        // does not depend on n at all (a sequence of assignment statements)
+        let limit_ok = !family.ends_with("-statements") && !family.ends_with("-values");
+        // a frame that uses (nearly) all 255 registers cannot start a call: the VM reports that as a run-time error
+        let runtime_limit = limit_ok && n >= 250 && got.starts_with("error too_many_registers_are_in_use");
+        let verdict = if got == expect {
+            "value-ok"
+        } else if got == "compile-error" && limit_ok {
+            "compile-error"
+        } else if runtime_limit {
+            "register-limit-reported-at-run-time"
+        } else {
+            "WRONG"
+        };
+        cx.rep.bump(&format!("boundary:{}={}", family, verdict));
+        if verdict == "WRONG" {
+            match boundary_finding(&family, n) {
+                Some(id) if cx.is_open(id) => cx.attributed(id, &label),
+                _ => cx.rep.violation("D", &format!("C05:boundary:{}", family), json!({"family": family, "n": n, "program": if prog.len() < 6000 { prog.clone() } else { format!("<{} bytes, see input_hex>", prog.len()) },
+                    "input_hex": kvh::hex(prog.as_bytes()), "expected": format!("{} (or a compile error)", expect), "observed": got,
+                    "note": "a size limit is neither honoured nor reported: the program compiles and misbehaves"})),
+            }
+        }
+    }
+    cx.flush();
+
     // 5. listed findings: replay the witnesses
     for e in cx.rep.known_entries() {
         let Some(id) = e.get("id").and_then(|x| x.as_str()).map(|s| s.to_string()) else { continue };
@@ -2234,6 +2383,10 @@ fn real_main() -> i32 {
             }
         }
         let n = cx.known_counts.get(&id).copied().unwrap_or(0);
+        // findings of the boundary sweep: their witnesses are the sweep's own cases (run above)
+        if matches!(id.as_str(), "F-C05-9" | "F-C05-10" | "F-C05-11" | "F-C05-12" | "F-C05-13") && n > 0 {
+            failing.push(format!("{} boundary-sweep cases of its families give a wrong value / spurious error", n));
+        }
         if known && !failing.is_empty() {
             cx.rep.known(&id, &format!("witness still fails: {} ({} programs of this run attributed to it by its cause rule)", failing.join("; "), n));
         } else if known {
